@@ -30,6 +30,23 @@ theorem nl_eq_spec_inner (on : Pred) (nL nR : Nat) (Ls Rs : List Chunk) :
 example : (flat (nlJoin false (fun r => sqlEq (r.getD 0 .null) (r.getD 1 .null)) 1 [[[.i32 1], [.null]]] [[[.i32 1]], [[.null]]])).Perm
     [[.i32 1, .i32 1]] := by decide
 
+/-- LEFT OUTER nested-loop join: the remembered bitmap of the windowed cross product, read back
+with the index arithmetic `filter[i + |L|·j]`, finds exactly the unmatched left rows; the result
+is the bag of the spec's left outer join, for every chunking of both inputs. -/
+theorem nl_eq_spec_left_outer (on : Pred) (nL nR : Nat) (Ls Rs : List Chunk) :
+    (flat (nlJoin true on nR Ls Rs)).Perm (joinRel .leftOuter on nL nR (flat Ls) (flat Rs)) := by
+  unfold nlJoin joinRel
+  simp only [if_true]
+  have hf : ∀ (a b : List Chunk), flat (a ++ b) = flat a ++ flat b := by intro a b; simp [flat]
+  rw [hf, flat_map_filter, flat_emit, flat_emit, nlUnmatched_spec]
+  refine Perm.trans ?_ (leftJoin_perm_decomp on nR (flat Ls) (flat Rs)).symm
+  refine Perm.append_right _ ?_
+  unfold innerJoin matchesOf
+  exact cross_swap_perm (fun l r => l ++ r) (fun row => holds (on row)) (flat Ls) (flat Rs)
+
+example : (flat (nlJoin true (fun r => sqlEq (r.getD 0 .null) (r.getD 1 .null)) 1 [[[.i32 1], [.null]], [[.i32 2]]] [[[.i32 1]], [[.null], [.i32 1]]])).Perm
+    [[.i32 1, .i32 1], [.i32 1, .i32 1], [.null, .null], [.i32 2, .null]] := by decide
+
 theorem nl_eq_spec_semi (on : Pred) (nL nR : Nat) (Ls Rs : List Chunk) :
     flat (nlSemiJoin false on Ls Rs) = joinRel .semi on nL nR (flat Ls) (flat Rs) := by
   unfold nlSemiJoin joinRel semiJoin
@@ -239,23 +256,6 @@ theorem simpleagg_eq_hashagg_nokeys_sum_partial (w : Int) (ws : List Int) :
 theorem simpleagg_eq_hashagg_nokeys_first_unsound :
     chunkPathVal .first .i32 [([.null, .i32 5], [0, 5])] ≠ rowPathVal .first [.null, .i32 5] := by decide
 
-
-/-- LEFT OUTER nested-loop join: the remembered bitmap of the windowed cross product, read back
-with the index arithmetic `filter[i + |L|·j]`, finds exactly the unmatched left rows; the result
-is the bag of the spec's left outer join, for every chunking of both inputs. -/
-theorem nl_eq_spec_left_outer (on : Pred) (nL nR : Nat) (Ls Rs : List Chunk) :
-    (flat (nlJoin true on nR Ls Rs)).Perm (joinRel .leftOuter on nL nR (flat Ls) (flat Rs)) := by
-  unfold nlJoin joinRel
-  simp only [if_true]
-  have hf : ∀ (a b : List Chunk), flat (a ++ b) = flat a ++ flat b := by intro a b; simp [flat]
-  rw [hf, flat_map_filter, flat_emit, flat_emit, nlUnmatched_spec]
-  refine Perm.trans ?_ (leftJoin_perm_decomp on nR (flat Ls) (flat Rs)).symm
-  refine Perm.append_right _ ?_
-  unfold innerJoin matchesOf
-  exact cross_swap_perm (fun l r => l ++ r) (fun row => holds (on row)) (flat Ls) (flat Rs)
-
-example : (flat (nlJoin true (fun r => sqlEq (r.getD 0 .null) (r.getD 1 .null)) 1 [[[.i32 1], [.null]], [[.i32 2]]] [[[.i32 1]], [[.null], [.i32 1]]])).Perm
-    [[.i32 1, .i32 1], [.i32 1, .i32 1], [.null, .null], [.i32 2, .null]] := by decide
 
 /-! ## chunk boundaries of the inputs are irrelevant (1024-row boundary included) -/
 
